@@ -35,7 +35,7 @@ def patterns_for(tree_files):
         base = os.path.basename(f)
         ext = os.path.splitext(f)[1]
         d = os.path.dirname(f)
-        v = [f, "/" + f, base, "*" + ext, "**/" + base]
+        v = [f, "/" + f, base, "*" + ext, "**/" + base, "*/", base[:1] + "*/", "./" + f, base[:1] + "*", f.replace("/", "//", 1)]
         if d:
             top = d.split("/")[0]
             v += [d + "/", top + "/", d + "/*" + ext, "/" + top + "/", "/" + d + "/", os.path.basename(d) + "/", "/" + os.path.basename(d) + "/"]
@@ -68,6 +68,15 @@ def case_strategy():
             for cmds in c["platforms"].values():
                 if cmds and draw(st.booleans()):
                     cmds[0]["file"] = host
+        # a forced include (-include) of a header that can be excluded by pattern or lives outside the root
+        if srcs and draw(st.booleans()):
+            fw = draw(st.sampled_from(["cfg", "../ext", "include"]))
+            fh = fw + "/forced.h"
+            c["tree"][fh] = {"items": [["undef", "FORCED_ON"], ["define", "FORCED_ON", "1"], ["code", 1]], "style": [0]}
+            host = draw(st.sampled_from(srcs))
+            c["tree"][host]["items"] = [["chain", [["ifdef", "FORCED_ON", [["code", 1]]]], [["code", 2]]]] + c["tree"][host]["items"]
+            pn = draw(st.sampled_from(sorted(c["platforms"])))
+            c["platforms"][pn].append({"file": host, "defines": [], "dirs": [], "forced": [fh], "compiler": "gcc"})
         c["excludes"] = draw(patterns_for(list(c["tree"]) + list(c.get("extra", {}))))
         return c
 
@@ -90,6 +99,7 @@ def relocate_ext(case):
     for cmds in c["platforms"].values():
         for cmd in cmds:
             cmd["dirs"] = [[k, mv(d) if d != "../ext" else "ext_in"] for k, d in cmd.get("dirs", [])]
+            cmd["forced"] = [mv(f) for f in cmd.get("forced", [])]
     return c
 
 
@@ -224,7 +234,7 @@ def _shard(seed, n, known, cli):
 
 def run(ctx):
     n = core.NPROC
-    napi, ncli = ctx.pick(400, 20000), ctx.pick(12, 400)
+    napi, ncli = ctx.pick(400, 20000), ctx.pick(24, 400)
     jobs = [(ctx.shard_seed("api", i), max(1, napi // (n - 4)), ctx.known_sigs, False) for i in range(n - 4)]
     jobs += [(ctx.shard_seed("cli", i), max(1, ncli // 4), ctx.known_sigs, True) for i in range(4)]
     res = core.merge_results(core.pool_map(_shard, jobs))
